@@ -74,6 +74,18 @@ type PendingChecks = Vec<(
     Vec<(String, SocketAddr)>,
 )>;
 
+/// Verification hook (compiled only with `--cfg sozu_verif`): milliseconds of
+/// `t` on the process-wide clock the `hc_*` hook events are stamped with (the
+/// epoch is the first instant ever passed in). The events report the very
+/// `Instant` the checker based its decision on, so a harness can re-check the
+/// interval / timeout arithmetic without guessing at scheduling delays.
+#[cfg(sozu_verif)]
+pub fn verif_ms(t: Instant) -> i64 {
+    static EPOCH: std::sync::OnceLock<Instant> = std::sync::OnceLock::new();
+    let epoch = *EPOCH.get_or_init(|| t);
+    t.saturating_duration_since(epoch).as_millis() as i64
+}
+
 /// Tracks an in-flight health check connection
 #[derive(Debug)]
 struct InFlightCheck {
@@ -283,6 +295,26 @@ impl HealthChecker {
         drop(backend_map);
 
         for (cluster_id, config, h2c, backends_to_check) in to_check {
+            #[cfg(sozu_verif)]
+            crate::verif::emit_s(
+                "hc_round",
+                &[
+                    ("t_ms", verif_ms(now)),
+                    (
+                        "since_ms",
+                        self.last_check_time
+                            .get(&cluster_id)
+                            .map_or(-1, |last| now.duration_since(*last).as_millis() as i64),
+                    ),
+                    ("targets", backends_to_check.len() as i64),
+                    ("interval", i64::from(config.interval)),
+                    ("timeout", i64::from(config.timeout)),
+                    ("healthy_threshold", i64::from(config.healthy_threshold)),
+                    ("unhealthy_threshold", i64::from(config.unhealthy_threshold)),
+                    ("expected_status", i64::from(config.expected_status)),
+                ],
+                &[("cluster", cluster_id.to_owned())],
+            );
             self.last_check_time.insert(cluster_id.to_owned(), now);
 
             // The URI was validated at the worker `SetHealthCheck`
@@ -361,6 +393,23 @@ impl HealthChecker {
                             )
                             .into_bytes()
                         };
+                        #[cfg(sozu_verif)]
+                        crate::verif::emit_s(
+                            "hc_start",
+                            &[
+                                ("t_ms", verif_ms(now)),
+                                ("token", token.0 as i64),
+                                (
+                                    "local_port",
+                                    stream.local_addr().map_or(-1, |a| i64::from(a.port())),
+                                ),
+                            ],
+                            &[
+                                ("cluster", cluster_id.to_owned()),
+                                ("backend", backend_id.to_owned()),
+                                ("address", address.to_string()),
+                            ],
+                        );
                         self.in_flight.push(InFlightCheck {
                             stream,
                             token,
@@ -437,6 +486,19 @@ impl HealthChecker {
                     check.backend_id,
                     check.address,
                     check.cluster_id
+                );
+                #[cfg(sozu_verif)]
+                crate::verif::emit(
+                    "hc_timeout",
+                    &[
+                        ("t_ms", verif_ms(now)),
+                        ("token", check.token.0 as i64),
+                        (
+                            "elapsed_ms",
+                            now.duration_since(check.started_at).as_millis() as i64,
+                        ),
+                        ("timeout", check.timeout.as_secs() as i64),
+                    ],
                 );
                 completed.push((idx, false));
                 continue;
@@ -532,6 +594,26 @@ impl HealthChecker {
                 "swap_remove must drop exactly one in-flight check"
             );
             let _ = registry.deregister(&mut check.stream);
+            #[cfg(sozu_verif)]
+            crate::verif::emit_s(
+                "hc_done",
+                &[
+                    ("t_ms", verif_ms(now)),
+                    ("token", check.token.0 as i64),
+                    ("success", i64::from(success)),
+                    (
+                        "elapsed_ms",
+                        now.duration_since(check.started_at).as_millis() as i64,
+                    ),
+                    ("request_sent", i64::from(check.request_bytes.is_none())),
+                    ("response_bytes", check.response_buf.len() as i64),
+                ],
+                &[
+                    ("cluster", check.cluster_id.to_owned()),
+                    ("backend", check.backend_id.to_owned()),
+                    ("address", check.address.to_string()),
+                ],
+            );
             Self::record_check_result(
                 backends,
                 &check.cluster_id,
@@ -553,10 +635,30 @@ impl HealthChecker {
     ) {
         let mut backend_map = backends.borrow_mut();
         let Some(backend_list) = backend_map.backends.get_mut(cluster_id) else {
+            #[cfg(sozu_verif)]
+            crate::verif::emit_s(
+                "hc_result",
+                &[("success", i64::from(success)), ("credited", 0)],
+                &[
+                    ("cluster", cluster_id.to_owned()),
+                    ("backend", backend_id.to_owned()),
+                    ("address", address.to_string()),
+                ],
+            );
             return;
         };
 
         let Some(backend_ref) = backend_list.find_backend(&address) else {
+            #[cfg(sozu_verif)]
+            crate::verif::emit_s(
+                "hc_result",
+                &[("success", i64::from(success)), ("credited", 0)],
+                &[
+                    ("cluster", cluster_id.to_owned()),
+                    ("backend", backend_id.to_owned()),
+                    ("address", address.to_string()),
+                ],
+            );
             return;
         };
 
@@ -665,6 +767,33 @@ impl HealthChecker {
             count!(names::health_check::FAILURE, 1);
         }
 
+        #[cfg(sozu_verif)]
+        crate::verif::emit_s(
+            "hc_result",
+            &[
+                ("success", i64::from(success)),
+                ("credited", 1),
+                ("healthy", i64::from(backend.health.is_healthy())),
+                (
+                    "consecutive_successes",
+                    i64::from(backend.health.consecutive_successes),
+                ),
+                (
+                    "consecutive_failures",
+                    i64::from(backend.health.consecutive_failures),
+                ),
+                ("healthy_threshold", i64::from(config.healthy_threshold)),
+                ("unhealthy_threshold", i64::from(config.unhealthy_threshold)),
+            ],
+            &[
+                ("cluster", cluster_id.to_owned()),
+                ("backend", backend_id.to_owned()),
+                ("address", address.to_string()),
+                ("credited_backend", backend.backend_id.to_owned()),
+                ("credited_address", backend.address.to_string()),
+            ],
+        );
+
         // Emit the healthy-backend gauge on every result update for clusters
         // with at least one configured backend, including `healthy == 0`. The
         // gauge is the only documented signal that lets dashboards detect
@@ -722,6 +851,24 @@ impl HealthChecker {
     }
 
     pub fn remove_cluster(&mut self, cluster_id: &str) {
+        #[cfg(sozu_verif)]
+        crate::verif::emit_s(
+            "hc_remove_cluster",
+            &[
+                (
+                    "dropped",
+                    self.in_flight
+                        .iter()
+                        .filter(|check| check.cluster_id == cluster_id)
+                        .count() as i64,
+                ),
+                (
+                    "had_last_check",
+                    i64::from(self.last_check_time.contains_key(cluster_id)),
+                ),
+            ],
+            &[("cluster", cluster_id.to_owned())],
+        );
         self.last_check_time.remove(cluster_id);
         self.in_flight
             .retain(|check| check.cluster_id != cluster_id);
